@@ -180,24 +180,49 @@ class Globals:
         return None
 
     def _self_locking(self):
-        """methods whose body acquires a scoped lock on a mutex member of *this before any other use of *this"""
+        """methods in which every access to a member of *this (other than the mutex) happens while a scoped lock on a mutex member of *this is alive"""
         out = set()
         for i, f in self.fx.F.items():
             if not f.get('class'):
                 continue
-            body = f['body']
-            if not isinstance(body, dict) or body.get('k') != 'seq':
-                continue
-            for st in body['c']:
-                if not isinstance(st, dict):
-                    continue
+            state = {'locks': 0, 'bad': False, 'access': 0}
+
+            def is_this_lock(st):
                 if st.get('k') == 'decl' and any(t in (st.get('t') or '') for t in LOCK_TYPES):
                     mems = [x for x in walk(st.get('init')) if x.get('k') == 'mem' and isinstance(x.get('b'), dict) and x['b'].get('k') == 'this']
-                    if mems and all(is_sync_type(x.get('t') or '') for x in mems):
-                        out.add(i)
-                    break
-                if any(x.get('k') == 'this' for x in walk(st)):
-                    break
+                    return bool(mems) and all(is_sync_type(x.get('t') or '') for x in mems)
+                return False
+
+            def visit(n, locked):
+                if isinstance(n, list):
+                    for x in n:
+                        visit(x, locked)
+                    return
+                if not isinstance(n, dict):
+                    return
+                if n.get('k') == 'seq':
+                    lk = locked
+                    for c in n['c']:
+                        if isinstance(c, dict) and is_this_lock(c):
+                            lk = True
+                            state['locks'] += 1
+                            continue
+                        visit(c, lk)
+                    return
+                if n.get('k') == 'mem' and isinstance(n.get('b'), dict) and n['b'].get('k') == 'this' and not is_sync_type(n.get('t') or ''):
+                    state['access'] += 1
+                    if not locked:
+                        state['bad'] = True
+                if n.get('k') == 'call' and isinstance(n.get('recv'), dict) and n['recv'].get('k') == 'this':
+                    state['access'] += 1
+                    if not locked:
+                        state['bad'] = True
+                for k, v in n.items():
+                    if k != 'k' and isinstance(v, (dict, list)):
+                        visit(v, locked)
+            visit(f['body'], False)
+            if state['locks'] and not state['bad']:
+                out.add(i)
         return out
 
     def _accessors(self):
